@@ -14,7 +14,7 @@ def _chain(e):
     return out
 
 
-def classify(exc, lab):
+def classify(exc, lab, raised=()):
     """Failure class of an exception raised at the public boundary."""
     from labrea.conditional import CaseWhenError, SwitchError
     from labrea.exceptions import EvaluationError, InsufficientInformationError, KeyNotFoundError
@@ -25,8 +25,14 @@ def classify(exc, lab):
            "is_evaluation_error": isinstance(exc, EvaluationError)}
     if any(isinstance(e, InsufficientInformationError) for e in chain):
         out["insufficient"] = True
+    out["chain"] = chain
     knf = [e for e in chain if isinstance(e, KeyNotFoundError)]
-    if knf:
+    mine = [e for e in chain if any(e is r for r in raised)]
+    if mine:
+        out["cls"] = "User"
+        out["x"] = getattr(mine[-1], "verif_name", "")
+        out["original_is_last"] = mine[-1] is root
+    elif knf:
         # the innermost missing-key report (its own cause may be the KeyError of the lookup)
         out["cls"] = "KeyNotFound"
         out["key"] = knf[-1].key
@@ -49,11 +55,14 @@ def classify(exc, lab):
     return out
 
 
-def call(fn, lab, forced=True):
+def call(fn, lab, forced=True, raised=()):
     from . import codec
 
     try:
         v = fn()
+    except Exception as e:  # noqa
+        return classify(e, lab, raised)
+    try:
         n0 = codec.LAZY_SEEN[0]
         if forced:
             v = force(v)
@@ -62,7 +71,9 @@ def call(fn, lab, forced=True):
             out["lazy"] = True  # the result was (or contained) a one-shot iterator
         return out
     except Exception as e:  # noqa
-        return classify(e, lab)
+        out = classify(e, lab, raised)
+        out["while_forcing"] = True  # raised while the caller consumed a lazy result, not by evaluate()
+        return out
 
 
 def observe_all(root, o, lab):
